@@ -3,7 +3,78 @@ import GnpyModel
 /- driver handlers for property C01 (ops are named "c01.<name>") -/
 open Lean
 namespace Gnpy.Drv.C01
+open Gnpy.Spectrum
 
-def handlers : List (String × Handler) := []
+/-- a channel crosses the pipe as `[p, s, a, n]` (bit patterns) -/
+def getChan (j : Json) : R (Chan Float) := do
+  match ← getArr j with
+  | [p, s, a, n] => return { p := ← getF p, s := ← getF s, a := ← getF a, n := ← getF n }
+  | _ => throw "channel = [p,s,a,n] expected"
+
+def jChan (c : Chan Float) : Json := Json.arr #[jF c.p, jF c.s, jF c.a, jF c.n]
+
+/-- an op crosses the pipe as `[kind, arg]` -/
+def getOp (j : Json) : R (Op Float) := do
+  match ← getArr j with
+  | [k, v] =>
+    let x ← getF v
+    match ← getStr k with
+    | "attLin" => return .attLin x
+    | "attDb" => return .attDb x
+    | "gainLin" => return .gainLin x
+    | "gainDb" => return .gainDb x
+    | "addAse" => return .addAse x
+    | "addNli" => return .addNli x
+    | s => throw s!"unknown op kind {s}"
+  | _ => throw "op = [kind,arg] expected"
+
+def getKChan (j : Json) : R (Int × Chan Float) := do
+  match ← getArr j with
+  | [k, c] => return (← getInt k, ← getChan c)
+  | _ => throw "keyed channel = [freq,[p,s,a,n]] expected"
+
+def jKChan (kc : Int × Chan Float) : Json := Json.arr #[jInt kc.1, jChan kc.2]
+
+/-- everything the implementation exposes about one channel:
+`[p, s, a, n, signal, ase, nli, snr_lin_db, snr_nli_db, gsnr_db]` -/
+def jViews (c : Chan Float) : Json :=
+  Json.arr #[jF c.p, jF c.s, jF c.a, jF c.n, jF c.signal, jF c.ase, jF c.nli,
+             jF c.snrLinDb, jF c.snrNliDb, jF c.gsnrDb]
+
+/-- `run` for every channel with its own op list -/
+def runH (j : Json) : R Json := do
+  let chans ← fList getChan j "chans"
+  let ops ← fList (getList getOp) j "ops"
+  if chans.length ≠ ops.length then throw "chans/ops length mismatch"
+  return jList jViews (List.zipWith (fun c o => run o c) chans ops)
+
+/-- `select_channels` by a boolean mask, then (optionally) merge of several keyed spectra -/
+def demuxH (j : Json) : R Json := do
+  let sp ← fList getKChan j "sp"
+  let keep ← fList getInt j "keep"
+  return jList jKChan (demux (fun f => keep.contains f) sp)
+
+def muxH (j : Json) : R Json := do
+  let parts ← fList (getList getKChan) j "parts"
+  return jOpt (jList jKChan) (mux parts)
+
+/-- Transceiver figures: `_calc_snr` then `update_snr(*args)` per channel;
+also the 0.1 nm views -/
+def trxH (j : Json) : R Json := do
+  let chans ← fList getChan j "chans"
+  let baud ← fList getF j "baud"
+  let args ← fList (getList getF) j "args"
+  let rows := List.zipWith (fun c ba =>
+      let (o, nl, g) := calcSnr c
+      let (o2, nl2, g2) := updateSnr c ba.1 ba.2
+      let added := snrAdded ba.2
+      Json.arr #[jF o, jF nl, jF g, jF (optDb o ba.1), jF (optDb g ba.1),
+                 jF o2, jF nl2, jF g2,
+                 jF (snrSum (optDb o ba.1) refBw added), jF (snrSum (optDb g ba.1) refBw added)])
+    chans (baud.zip args)
+  return Json.arr rows.toArray
+
+def handlers : List (String × Handler) :=
+  [("c01.run", runH), ("c01.demux", demuxH), ("c01.mux", muxH), ("c01.trx", trxH)]
 
 end Gnpy.Drv.C01
